@@ -200,11 +200,10 @@ func (fullGraph *FullGraph) buildGraphNode(subgraph string, current *PathTrie, g
 	_ = graph.AddSubGraph(subgraph, layerName, layerAttr)
 	fullGraph.layerIndex++
 
-	if len(current.Children) > 0 {
-		for _, child := range current.Children {
-			fullGraph.buildGraphNode(layerName, child, graph, nodes, s)
-		}
-	} else {
+	for _, child := range current.Children {
+		fullGraph.buildGraphNode(layerName, child, graph, nodes, s)
+	}
+	if len(current.Children) == 0 || current.IsKey {
 		_ = graph.AddNode(subgraph, "node"+strconv.Itoa(fullGraph.nodeIndex), fullGraph.buildRelationAttr(current.Value))
 		nodes[s] = "node" + strconv.Itoa(fullGraph.nodeIndex)
 		fullGraph.nodeIndex++
